@@ -345,6 +345,67 @@ func (p c16) loopback(r *core.Result, fps map[string]bool) {
 			conn.Close()
 			_ = t.Close()
 		}
+		// the limit is per envelope, not per connection: a long stream of envelopes within the limit, on one accepted
+		// and on one dialed connection
+		{
+			r.Evals++
+			r.Count("runs", 1)
+			r.Count("loopback_runs", 1)
+			fps[fmt.Sprintf("loopback-accept-stream|L%d", L)] = true
+			conn, err := net.Dial("tcp", addr.String())
+			if err == nil {
+				ctx, cancel := context.WithTimeout(context.Background(), 10*time.Second)
+				t, err := l.Accept(ctx)
+				cancel()
+				if err == nil {
+					const k = 16
+					go func() {
+						for i := 0; i < k; i++ {
+							_, _ = conn.Write(append(c16msg(fmt.Sprintf("s%02d", i), L/2), '\n'))
+						}
+					}()
+					for i := 0; i < k; i++ {
+						ctx, cancel := context.WithTimeout(context.Background(), 20*time.Second)
+						_, rerr := t.Receive(ctx)
+						cancel()
+						if rerr != nil {
+							r.Violate("C16/rejected-within-limit/listener-stream", fmt.Sprintf("accepted transport with listener limit %d: envelope #%d of a stream of %d-byte envelopes was rejected after %d bytes had been received on the connection: %v", L, i, L/2, i*(L/2+1), rerr))
+							break
+						}
+						r.Count("accepted_within_limit", 1)
+					}
+					_ = t.Close()
+				}
+				conn.Close()
+			}
+			if rawl, err := net.Listen("tcp", "127.0.0.1:0"); err == nil {
+				fps[fmt.Sprintf("loopback-dial-stream|L%d", L)] = true
+				const k = 16
+				go func() {
+					c, err := rawl.Accept()
+					if err == nil {
+						for i := 0; i < k; i++ {
+							_, _ = c.Write(append(c16msg(fmt.Sprintf("s%02d", i), L/2), '\n'))
+						}
+						time.Sleep(300 * time.Millisecond)
+						c.Close()
+					}
+				}()
+				ctx, cancel := context.WithTimeout(context.Background(), 30*time.Second)
+				if t, err := lime.DialTcp(ctx, rawl.Addr(), &lime.TCPConfig{ReadLimit: int64(L)}); err == nil {
+					for i := 0; i < k; i++ {
+						if _, rerr := t.Receive(ctx); rerr != nil {
+							r.Violate("C16/rejected-within-limit/dial-stream", fmt.Sprintf("dialed transport with limit %d: envelope #%d of a stream of %d-byte envelopes was rejected after %d bytes had been received on the connection: %v", L, i, L/2, i*(L/2+1), rerr))
+							break
+						}
+						r.Count("accepted_within_limit", 1)
+					}
+					_ = t.Close()
+				}
+				cancel()
+				rawl.Close()
+			}
+		}
 		// dialer side
 		raw, err := net.Listen("tcp", "127.0.0.1:0")
 		if err == nil {
